@@ -24,9 +24,15 @@ def PC.waiting : PC → Bool
   | .w0 | .w9 | .w10 => true
   | _ => false
 
+/-- the loop of `BgServingThread._bg_server` (a polling thread is never there) -/
+def PC.bgLoop : PC → Bool
+  | .b0 | .bS => true
+  | _ => false
+
 /-- the part of the invariant that speaks about one thread -/
 structure ThrOK (s : St) (t : Tid) (l : Loc) : Prop where
   bg_pc : l.bg = true → l.pc.client = false
+  nowait_ok : l.nowait = true → l.bg = true ∧ l.pc.bgLoop = false
   seq_issued : l.hasSeq = true → l.seq ∈ s.issued
   at_c1 : l.hasSeq = true → l.pc = .c1 → freshSeq s l.seq
   at_c2 : l.hasSeq = true → l.pc = .c2 → s.answer l.seq = none ∧ l.seq ∉ s.outstanding
@@ -69,6 +75,8 @@ structure InvS' (s : St) : Prop where
 structure InvSX (s : St) : Prop where
   /-- a background serving thread is never at a client-only program counter -/
   bg_pc : ∀ t, (s.loc t).bg = true → (s.loc t).pc.client = false
+  /-- a polling thread (`poll_all`) counts as a background thread and is never in `_bg_server`'s loop -/
+  nowait_ok : ∀ t, (s.loc t).nowait = true → (s.loc t).bg = true ∧ (s.loc t).pc.bgLoop = false
   /-- `result_ok` for background threads (their `result`/`seq` are left over from an earlier call) -/
   result_bg : ∀ t e o, (s.loc t).bg = true → (s.loc t).result = some (.value e o) →
       ∃ e' v, s.answer (s.loc t).seq = some (e', v) ∧ e = some e' ∧ o = some v
@@ -105,6 +113,7 @@ theorem InvS'.toInvS {s : St} (h : InvS' s) : InvS s where
 
 theorem InvS'.toInvSX {s : St} (h : InvS' s) : InvSX s where
   bg_pc t := (h.thr t).bg_pc
+  nowait_ok t := (h.thr t).nowait_ok
   result_bg t e o _ := (h.thr t).result_ok e o
 
 theorem InvS'.of_InvS {s : St} (h : InvS s) (hx : InvSX s) : InvS' s where
@@ -122,6 +131,7 @@ theorem InvS'.of_InvS {s : St} (h : InvS s) (hx : InvSX s) : InvS' s where
     ready_compl := h.ready_compl }
   thr t := {
     bg_pc := hx.bg_pc t
+    nowait_ok := hx.nowait_ok t
     seq_issued := h.seq_issued t
     at_c1 := h.at_c1 t
     at_c2 := h.at_c2 t
@@ -149,6 +159,18 @@ theorem ThrOK.bg_false_of_client {s : St} {t : Tid} {l : Loc} (h : ThrOK s t l) 
   | false => rfl
   | true => rw [h.bg_pc hb] at hc; cases hc
 
+theorem ThrOK.nowait_false_of_bg {s : St} {t : Tid} {l : Loc} (h : ThrOK s t l) (hb : l.bg = false) :
+    l.nowait = false := by
+  cases hn : l.nowait with
+  | false => rfl
+  | true => rw [(h.nowait_ok hn).1] at hb; cases hb
+
+theorem ThrOK.nowait_false_of_bgLoop {s : St} {t : Tid} {l : Loc} (h : ThrOK s t l) (hb : l.pc.bgLoop = true) :
+    l.nowait = false := by
+  cases hn : l.nowait with
+  | false => rfl
+  | true => rw [(h.nowait_ok hn).2] at hb; cases hb
+
 theorem hasSeq_iff (l : Loc) : l.hasSeq = true ↔ l.bg = false ∧ l.pc ≠ .idle := by
   simp [Loc.hasSeq]
 
@@ -171,6 +193,7 @@ theorem SameGlob.freshSeq {s s' : St} (g : SameGlob s s') (q : Seq) : freshSeq s
 
 theorem SameGlob.thr {s s' : St} (g : SameGlob s s') {u : Tid} {l : Loc} (h : ThrOK s u l) : ThrOK s' u l where
   bg_pc := h.bg_pc
+  nowait_ok := h.nowait_ok
   seq_issued := by simpa only [g.issued] using h.seq_issued
   at_c1 := by simpa only [g.freshSeq] using h.at_c1
   at_c2 := by simpa only [g.answer, g.outstanding] using h.at_c2
@@ -230,7 +253,8 @@ theorem InvS'.locOnly {s s' : St} (t : Tid) (h : InvS' s) (g : SameGlob s s')
 def PC.FrameOK0 (p p' : PC) : Prop :=
   (p'.client = true → p.client = true) ∧ (p = .idle → p' = .idle) ∧ (p' = .c1 → p = .c1) ∧ (p' = .c2 → p = .c2) ∧
   (p' = .w10 → p = .w10) ∧ (p'.completing = p.completing) ∧
-  (p' = .d4 ∨ p' = .d5 → p = .d4 ∨ p = .d5) ∧ (p' = .d5 → p = .d5) ∧ (p' = .zz → p = .zz)
+  (p' = .d4 ∨ p' = .d5 → p = .d4 ∨ p = .d5) ∧ (p' = .d5 → p = .d5) ∧ (p' = .zz → p = .zz) ∧
+  (p'.bgLoop = true → p.bgLoop = true)
 
 /-- how the program counter may change without touching the per-thread invariant -/
 def PC.FrameOK (p p' : PC) : Prop :=
@@ -246,7 +270,7 @@ theorem ThrOK.setPc' {s : St} {t : Tid} {l : Loc} {p : PC} (p' : PC) (h : ThrOK 
     (kd : l.hasSeq = true → p'.inServe = true → l.dl = (s.cells l.seq).ttl) :
     ThrOK s t { l with pc := p' } := by
   subst hp
-  obtain ⟨k1, k2, k3, k4, k5, k6, k7, k8, k11⟩ := ok
+  obtain ⟨k1, k2, k3, k4, k5, k6, k7, k8, k11, k12⟩ := ok
   have hs : ({ l with pc := p' } : Loc).hasSeq = true → l.hasSeq = true := by
     simp only [hasSeq_iff]
     exact fun ⟨a, b⟩ => ⟨a, fun c => b (k2 c)⟩
@@ -256,6 +280,11 @@ theorem ThrOK.setPc' {s : St} {t : Tid} {l : Loc} {p : PC} (p' : PC) (h : ThrOK 
       cases hc : p'.client with
       | false => rfl
       | true => rw [k1 hc] at this; cases this
+    nowait_ok := fun a => ⟨(h.nowait_ok a).1, by
+      have := (h.nowait_ok a).2
+      cases hc : p'.bgLoop with
+      | false => rfl
+      | true => rw [k12 hc] at this; cases this⟩
     seq_issued := fun a => h.seq_issued (hs a)
     at_c1 := fun a b => h.at_c1 (hs a) (k3 b)
     at_c2 := fun a b => h.at_c2 (hs a) (k4 b)
@@ -290,28 +319,30 @@ theorem setPc_hasSeq' {l : Loc} (p' : PC) (hp : l.pc ≠ .idle) :
   exact ⟨(hasSeq_iff _).2 ⟨a, hp⟩, rfl⟩
 
 /-- `serve()` returns -/
-theorem thrOK_leaveServe {s : St} {t : Tid} {l : Loc}
+theorem thrOK_leaveServe {s : St} {t : Tid} {l : Loc} (h0 : l.nowait = true → l.bg = true)
     (h1 : l.bg = false → l.seq ∈ s.issued)
     (h2 : ∀ e o, l.result = some (.value e o) → ∃ e' v, s.answer l.seq = some (e', v) ∧ e = some e' ∧ o = some v) :
     ThrOK s t (leaveServe l) := by
-  cases hb : l.bg <;>
-  exact {
-    bg_pc := by simp [leaveServe, afterServe, hb, PC.client]
+  cases hn : l.nowait <;> cases hb : l.bg
+  case true.false => have := h0 hn; rw [hb] at this; cases this
+  all_goals exact {
+    bg_pc := by simp [leaveServe, afterServe, hn, hb, PC.client]
+    nowait_ok := by simp [leaveServe, afterServe, hn, hb, PC.bgLoop]
     seq_issued := fun a => h1 ((hasSeq_iff _).1 a).1
-    at_c1 := by simp [leaveServe, afterServe, hb]
-    at_c2 := by simp [leaveServe, afterServe, hb]
+    at_c1 := by simp [leaveServe, afterServe, hn, hb]
+    at_c2 := by simp [leaveServe, afterServe, hn, hb]
     cb_pc := by simp [leaveServe]
-    completing := by simp [leaveServe, afterServe, hb, PC.completing]
+    completing := by simp [leaveServe, afterServe, hn, hb, PC.completing]
     data_answer := by simp [leaveServe]
-    at_w10 := by simp [leaveServe, afterServe, hb]
+    at_w10 := by simp [leaveServe, afterServe, hn, hb]
     result_ok := h2
-    self_dispatch := by simp [leaveServe, afterServe, hb, PC.waiting, Loc.hasSeq]
-    dl_ttl := by simp [leaveServe, afterServe, hb, PC.inServe, Loc.hasSeq]
-    wdl_le := by simp [leaveServe, afterServe, hb] }
+    self_dispatch := by simp [leaveServe, afterServe, hn, hb, PC.waiting, Loc.hasSeq]
+    dl_ttl := by simp [leaveServe, afterServe, hn, hb, PC.inServe, Loc.hasSeq]
+    wdl_le := by simp [leaveServe, afterServe, hn, hb] }
 
 theorem ThrOK.leaveServe {s : St} {t : Tid} {l : Loc} (h : ThrOK s t l) (hp : l.pc ≠ .idle) :
     ThrOK s t (leaveServe l) :=
-  thrOK_leaveServe (fun hb => h.seq_issued ((hasSeq_iff l).2 ⟨hb, hp⟩)) h.result_ok
+  thrOK_leaveServe (fun hn => (h.nowait_ok hn).1) (fun hb => h.seq_issued ((hasSeq_iff l).2 ⟨hb, hp⟩)) h.result_ok
 
 theorem leaveServe_hasSeq {l : Loc} (hp : l.pc ≠ .idle) :
     (leaveServe l).hasSeq = true → l.hasSeq = true ∧ (leaveServe l).seq = l.seq := by
@@ -336,6 +367,7 @@ theorem ThrOK.transfer {s s' : St} {u : Tid} {l : Loc} (h : ThrOK s u l)
     (h_ttl : l.hasSeq = true → l.pc.inServe = true → (s'.cells l.seq).ttl = (s.cells l.seq).ttl)
     (h_now : s.now ≤ s'.now) : ThrOK s' u l where
   bg_pc := h.bg_pc
+  nowait_ok := h.nowait_ok
   seq_issued := fun a => h_iss _ (h.seq_issued a)
   at_c1 := fun a b => h_c1 a b (h.at_c1 a b)
   at_c2 := fun a b => h_c2 a b (h.at_c2 a b).1 (h.at_c2 a b).2
@@ -488,15 +520,17 @@ theorem ThrOK.other_completing {s s' : St} {t u : Tid} {l : Loc} {q : Seq} (h : 
 /-- `raising` is not mentioned by the invariant -/
 theorem ThrOK.setRaising {s : St} {t : Tid} {l : Loc} (b : Bool) (h : ThrOK s t l) :
     ThrOK s t { l with raising := b } :=
-  ⟨h.bg_pc, h.seq_issued, h.at_c1, h.at_c2, h.cb_pc, h.completing, h.data_answer, h.at_w10, h.result_ok,
+  ⟨h.bg_pc, h.nowait_ok, h.seq_issued, h.at_c1, h.at_c2, h.cb_pc, h.completing, h.data_answer, h.at_w10, h.result_ok,
     h.self_dispatch, h.dl_ttl, h.wdl_le⟩
 
 /-- the thread becomes an idle client: nothing is claimed about it except its result -/
 theorem thrOK_idle {s : St} {t : Tid} {l l' : Loc} (h : ThrOK s t l) (hpc : l'.pc = .idle) (hbg : l'.bg = false)
+    (hnw : l'.nowait = false)
     (hcb : l'.cb = none) (hdata : l'.data = l.data) (hseq : l'.seq = l.seq)
     (hr : ∀ e o, l'.result = some (.value e o) → ∃ e' v, s.answer l.seq = some (e', v) ∧ e = some e' ∧ o = some v) :
     ThrOK s t l' where
   bg_pc := fun a => by rw [hbg] at a; cases a
+  nowait_ok := fun a => by rw [hnw] at a; cases a
   seq_issued := fun a => absurd hpc ((hasSeq_iff _).1 a).2
   at_c1 := fun _ b => by rw [hpc] at b; cases b
   at_c2 := fun _ b => by rw [hpc] at b; cases b
